@@ -337,6 +337,15 @@ func C17(c *core.Ctx) {
 				return false
 			}
 			id, ok := core.Callee(ci.Common())
+			if ok && id.Pkg == "fw/table" && id.Name == "RemoveNextHopEnc" {
+				// the withdrawal of a next hop this same command installed before
+				for _, ins := range core.FindCallsDeep(fn, core.CalleeID{Pkg: "fw/table", Recv: "*", Name: "InsertNextHopEnc"}) {
+					if core.ReachableAfterDeep(fn, ins, in) {
+						return true
+					}
+				}
+				return false
+			}
 			return ok && id.Pkg == "fw/table" && (id.Name == "CleanUpFace" || id.Name == "RemoveRouteEnc")
 		}
 		undone := func(m, r ssa.Instruction) bool {
@@ -347,6 +356,9 @@ func C17(c *core.Ctx) {
 			// a later mutator of the same command may precede the response; an error
 			// response after a mutation is a violation unless the mutation was withdrawn
 			m := m
+			if isUndo(m) {
+				continue // a withdrawal is followed by the refusal it belongs to
+			}
 			isEnd := func(in ssa.Instruction) bool {
 				if isOKResp(in) {
 					return true
@@ -1297,6 +1309,61 @@ func c17Round4(c *core.Ctx) {
 		c.Floor("R17.11", "narrowing conversions of a command parameter that reach a table or face call", nNarrow, 1)
 	}
 
+	// ---- R17.10b fib/add-nexthop: like rib/register, every response after the insertion is
+	// behind a second look-up of the face (or the withdrawal of the next hop): the FIB
+	// sweep of a face removed in between will not run again
+	if add := c.Fn("R17.10", "fw/mgmt", "FIBModule", "add"); add != nil {
+		var ins ssa.Instruction
+		for _, ci := range core.FindCallsDeep(add, core.CalleeID{Pkg: "fw/table", Recv: "*", Name: "InsertNextHopEnc"}) {
+			ins = ci
+		}
+		if ins == nil {
+			c.Und("R17.10", "nexthop-face-rechecked-after-insertion", p.Pos(add.Pos()), "InsertNextHopEnc not found in fib/add-nexthop")
+		} else {
+			faceArg := ins.(ssa.CallInstruction).Common().Args
+			var faceV ssa.Value
+			if len(faceArg) >= 2 {
+				faceV = faceArg[len(faceArg)-2]
+			}
+			exists := &core.Atom{Name: "FaceTable.Get(next-hop face) != nil", Match: func(cond ssa.Value) (int, int) {
+				op, x, y, ok := core.Cmp(cond)
+				if !ok || (op != token.EQL && op != token.NEQ) || !core.IsNilConst(y) {
+					return 0, 0
+				}
+				cl, isCall := core.Strip(x).(*ssa.Call)
+				if !isCall {
+					return 0, 0
+				}
+				if id, okID := core.Callee(&cl.Call); !okID || id.Name != "Get" || id.Recv != "Table" {
+					return 0, 0
+				}
+				_, a := core.CallArgs(&cl.Call)
+				if len(a) != 1 || faceV == nil || !(core.Strip(a[0]) == core.Strip(faceV) || core.Same(a[0], faceV)) {
+					return 0, 0
+				}
+				return core.Iff(op == token.NEQ)
+			}}
+			cut, _ := core.CutEdgesDeep(add, pos(exists))
+			leak := ""
+			for _, ci := range core.FindCallsDeep(add, core.CalleeID{Pkg: "fw/mgmt", Recv: "Thread", Name: "sendResponse"}) {
+				if ci.Parent() != ins.Parent() {
+					continue
+				}
+				if core.ReachInstrFrom(core.After(ins), ci, cut, func(x ssa.Instruction) bool {
+					y, isCI := x.(ssa.CallInstruction)
+					if !isCI {
+						return false
+					}
+					id, okID := core.Callee(y.Common())
+					return okID && id.Name == "RemoveNextHopEnc"
+				}) != nil {
+					leak = c.Pos(ci)
+				}
+			}
+			c.Decide(leak == "", "R17.10", "nexthop-face-rechecked-after-insertion", c.Pos(ins), "after InsertNextHopEnc every response is behind a second look-up of the face (or the withdrawal of the next hop)", "fib/add-nexthop answers ("+leak+") after InsertNextHopEnc without looking the face up again: a face removed between the existence test and the insertion has already had its next hops swept, so the new next hop stays on the dead face id for ever")
+		}
+	}
+
 	// ---- R17.12 the handlers agree on "FaceId 0 means the requesting face": every handler that
 	// defaults the face to the requesting one adopts the parameter only on the edge asserting
 	// *FaceId != 0 (rib/register does; a route registered with FaceId=0 must be removable
@@ -1593,11 +1660,11 @@ func c17Round4b(c *core.Ctx) {
 	if un := c.Fn("R17.14", "fw/table", "RibEntry", "updateNexthopsEnc"); un != nil {
 		var clears []string
 		core.InstrsDeep(un, func(in ssa.Instruction) {
-			if ci, ok := in.(ssa.CallInstruction); ok && ci.Common().IsInvoke() && ci.Common().Method.Name() == "ClearNextHopsEnc" {
+			if ci, ok := in.(ssa.CallInstruction); ok && ci.Common().IsInvoke() && (ci.Common().Method.Name() == "ClearNextHopsEnc" || ci.Common().Method.Name() == "SetNextHopsEnc") {
 				clears = append(clears, c.Pos(in))
 			}
 		})
-		c.Decide(len(clears) == 0, "R17.14", "rib-refresh-withdraws-only-its-own-nexthops", p.Pos(un.Pos()), "the RIB refresh does not clear the whole FIB entry", "RibEntry.updateNexthopsEnc clears the whole FIB entry of the prefix ("+strings.Join(clears, ", ")+") before it re-inserts the RIB's next hops: rib/register — or a rib/unregister that matches no route — deletes next hops that fib/add-nexthop installed, and rib/register Name=/localhost/nfd on any other face deletes the next hop to the management thread, after which no command is ever answered")
+		c.Decide(len(clears) == 0, "R17.14", "rib-refresh-withdraws-only-its-own-nexthops", p.Pos(un.Pos()), "the RIB refresh does not clear the whole FIB entry", "RibEntry.updateNexthopsEnc replaces or clears the whole FIB entry of the prefix ("+strings.Join(clears, ", ")+") with the RIB's next hops: rib/register — or a rib/unregister that matches no route — deletes next hops that fib/add-nexthop installed, and rib/register Name=/localhost/nfd on any other face deletes the next hop to the management thread, after which no command is ever answered")
 	}
 	// ---- R17.15
 	nTcp := 0
